@@ -24,7 +24,7 @@ NEEDS_MODULES = ["odata_query.ast", "odata_query.visitor", "odata_query.typing",
                  "odata_query.sql.sqlite", "odata_query.sql.athena"]
 TIMEOUT = {"quick": 15000, "thorough": 60000}
 KNOWN = []
-CLAUSES = ("post.wf", "post.tree", "side.left", "side.right", "post.lvl", "hole.data", "safety.raise", "unsupported",
+CLAUSES = ("post.wf", "post.tree", "side.left", "side.right", "side.adj", "post.lvl", "post.lead", "hole.data", "safety.raise", "unsupported",
            "pre.frag", "decreases", "cover", "own.fresh")
 TRUSTED = ["z3 5.1.0", "pyvc symbolic executor and Python semantics of DESIGN section 4",
            "vc/reader.py: the assumed SQL grammar of each dialect (operator levels from the SQLite / SQL-99 / Trino documentation)",
